@@ -374,6 +374,11 @@ func countSafety(obls []*Obligation) int {
 func lemmaObligation(eng *Engine, lm *Lemma) (*Obligation, error) {
 	e := eng.newFEnc(nil, "")
 	e.isLemma = true
+	for i, l := range eng.cs.Lemmas {
+		if l == lm {
+			e.lemmaIndex = i
+		}
+	}
 	e.noFacts = true
 	defer func() { e.noFacts = false }()
 	env := &Env{fe: e, vars: map[string]*Val{}, bound: map[string]*Val{}, pkg: eng.pkgByPath(lm.PkgPath)}
